@@ -274,8 +274,38 @@ def rule_hand(ctx, f):
             rk.setdefault(k, "delegated")
         wk = writer_keys(f, wb)
         if not rk and not wk:
+            # the keys may sit in private helpers both sides call (Stream<I>: StreamInfo::from_primitive / Stream::to_pdf_stream)
+            def through(body, fn, depth=0, seen=None):
+                seen = seen if seen is not None else set()
+                out = {}
+                for bb2 in [body] + f.closures_of(body["id"]):
+                    for bi2, t2 in F.calls(bb2):
+                        cal = f.bodies.get(t2.get("resolved") or "")
+                        if cal is None or not t2.get("resolved_local") or cal["id"] in seen or depth > 2:
+                            continue
+                        if cal["_file"] != body["_file"]:
+                            continue
+                        seen.add(cal["id"])
+                        got = fn(cal)
+                        out.update(got)
+                        out.update(through(cal, fn, depth + 1, seen))
+                return out
+            rk = through(rb, lambda bb3: reader_keys(f, bb3)[0])
+            wk = through(wb, lambda bb3: writer_keys(f, bb3))
+            if not rk or not wk:
+                continue
+            unknown = sorted(k for k in wk if k not in rk and k != "<non-constant>")
+            n += 1
+            ctx.check(not unknown, "C15-KEYS-H", name + "#written-known(helpers)", "the writer's helpers insert %s, which the reader's helpers never look up (they read %s)"
+                      % (unknown, sorted(rk)), wb["span"], detail="helper-written keys %s all known to the reader's helpers" % sorted(wk))
             continue
         n += 1
+        # a writer that builds a dictionary writes back every key the reader takes out of it (an optional entry the reader stores in a typed
+        # field and the writer forgets is lost on a read-write cycle)
+        if wk and rk:
+            forgotten = sorted(k for k, how in rk.items() if k not in wk and how != "delegated" and "<non-constant>" not in wk)
+            ctx.check(not forgotten, "C15-KEYS-H", name + "#read-written", "the reader looks up %s, the writer (which writes %s) never inserts them: these entries are lost when "
+                      "a value is read and written back" % (forgotten, sorted(wk)), wb["span"], detail="every key read is written")
         # residual kept?
         keeps_rest = False
         adt = rb["impl"].get("self_adt")
@@ -600,6 +630,42 @@ def rule_absent(ctx, f):
               detail="%d field inserts skip Null" % n)
 
 
+def rule_name_tables(ctx, f):
+    ctx.rule("C15-ENUM-H", "hand-written array-shaped models whose kind is a name (destinations): the name the writer emits for a variant is the name under "
+             "which the reader builds that variant")
+    from tables import str_arms, exclusive_regions, enum_switches, region_aggregates
+    n = 0
+    for adt, reader_id in (("object::types::DestView", "object::types::Dest::from_array"),):
+        rb = f.body(reader_id)
+        wb = f.impl_method("object::ObjectWrite", "object::types::Dest", "to_primitive")
+        if rb is None or wb is None or adt not in f.adts:
+            ctx.lost("C15-ENUM-H", "%s reader / writer" % adt)
+            continue
+        rcfg = CFG(rb)
+        arms = str_arms(rb)
+        regs = exclusive_regions(rcfg, {a["const"]: a["true_bb"] for a in arms})
+        rtab = {}
+        for a in arms:
+            for r, st in region_aggregates(rb, regs[a["const"]] | {a["true_bb"]}, adt):
+                rtab.setdefault(st[2][1]["variant"], set()).add(a["const"])
+        vsn = {v["vi"]: v["name"] for v in f.adts[adt]["variants"]}
+        wtab = {}
+        wcfg = CFG(wb)
+        for (i, pl, arms2, other) in enum_switches(wb, adt, f):
+            regs2 = exclusive_regions(wcfg, {vsn[k]: tg for k, tg in arms2.items()})
+            for k, tg in arms2.items():
+                vn = vsn[k]
+                for r in regs2.get(vn, set()) | {tg}:
+                    for st in wb["blocks"][r]["stmts"]:
+                        if st[0] == "assign" and st[2][0] == "use" and st[2][1][0] == "const" and isinstance(st[2][1][1], dict) and "str" in st[2][1][1]:
+                            wtab.setdefault(vn, set()).add(st[2][1][1]["str"])
+        ctx.floor("C15-ENUM-H", len(rtab), 5, "variants of %s the reader builds from a name" % adt.split("::")[-1])
+        for vn in sorted(rtab):
+            n += 1
+            ctx.check(wtab.get(vn) == rtab[vn], "C15-ENUM-H", "%s::%s" % (adt.split("::")[-1], vn), "the writer emits %s for %s, the reader builds it from %s: the value read back is "
+                      "another variant" % (sorted(wtab.get(vn, [])), vn, sorted(rtab[vn])), wb["span"], detail="%s <-> /%s" % (vn, "/".join(sorted(rtab[vn]))))
+
+
 def run(ctx):
     f = F.load("default")
     ctx.count("bodies", len(f.bodies))
@@ -608,6 +674,7 @@ def run(ctx):
     rule_hand(ctx, f)
     rule_variants(ctx, f)
     rule_positional(ctx, f)
+    rule_name_tables(ctx, f)
     rule_absent(ctx, f)
     return ctx.finish(
         "Static analysis of the macro-EXPANDED reader and writer impls in MIR: dictionary keys are extracted by tracing string constants into "
